@@ -4,6 +4,7 @@ CONSTANTS
   SmallMaxN = 24
   SmallVersions <- SmallV
   VSels <- AllVSels
+  Slim = FALSE
   Variants <- AllVariants
 SPECIFICATION Spec
 CHECK_DEADLOCK FALSE
